@@ -3,7 +3,7 @@
 # Per-burst outcome monitor against a drop-counter model (vf/radio.py Budget)
 # on real FakeTRX pairs over vnet: delivered / one NOPE indication / nothing.
 
-from vf import common, radio
+from vf import common, radio, sched, sim
 from vf.ref import trxd
 
 SHARDS = {"quick": 1, "thorough": 16}
@@ -118,11 +118,158 @@ def run_stream(ctx, r, idx):
 		ctx.sample("stream", {"history_tail": log[-12:], "bursts": nb})
 
 
+# ---- a FAKE_DROP command served while the clock thread is delivering a burst ------------------------
+
+def all_functions(cls):
+	import types
+	return [k for k, v in vars(cls).items() if isinstance(v, types.FunctionType)]
+
+
+def make_sched(ctx):
+	sc = sched.Sched("line")
+	for cls in (sim.fake_trx.FakeTRX, sim.transceiver.Transceiver, sim.burst_fwd.BurstForwarder):
+		for name in all_functions(cls):
+			sc.watch(cls, name)
+	sc.watch(sim.transceiver.CTRLInterfaceTRX, "parse_cmd")
+	return sc
+
+
+def race_case(ctx, sc, cfg, start, switches):
+	""" One burst is delivered by the clock thread (a drop budget is pending at the recipient) while the socket
+	    thread serves a new FAKE_DROP for the same recipient.  Whatever the interleaving, the outcome must be that
+	    of one of the two orders: (burst, command) or (command, burst). -> (error or None, info) """
+	import _thread
+	old, new, period, vers = cfg
+	bench = radio.Bench(12345, [{"base_port": 5700, "name": "A"}, {"base_port": 6700, "name": "B"}])
+	for i, (rx, tx) in enumerate(((890000, 935000), (935000, 890000))):
+		for c in ("RXTUNE %d" % rx, "TXTUNE %d" % tx, "SETFORMAT %d" % vers[i], "POWERON"):
+			bench.cmd(i, c)
+	for nd in bench.nodes:
+		for k, v in list(vars(nd.trx).items()):
+			if isinstance(v, (_thread.LockType, _thread.RLock)):
+				setattr(nd.trx, k, sched.BatonLock(sc))
+	bench.cmd(1, "FAKE_DROP %d" % old)
+	T = 2000
+	bits = trxd.rand_bits(__import__("random").Random(7), 148)
+
+	def burst(fn):
+		return {"dir": "tx", "ver": bench.models[0].ver, "fn": fn, "tn": 3, "pwr": 0, "bits": bits}
+
+	def outcome(dgs):
+		# -> "dropped" / "delivered" / error text
+		if bench.models[1].ver == 0:
+			return "dropped" if not dgs else "delivered" if len(dgs) == 1 else "%d datagrams for one burst" % len(dgs)
+		if len(dgs) != 1:
+			return "%d datagrams for one burst on a version-1 link" % len(dgs)
+		try:
+			m = trxd.decode(dgs[0], "rx")
+		except Exception as e:
+			return "undecodable datagram: %s" % e
+		return "dropped" if m.get("nope") else "delivered"
+
+	for nd in bench.nodes:
+		nd.rx_data()
+	if bench.nodes[0].data_raw(trxd.encode(burst(T))) is None:
+		return "valid burst not accepted", None
+	text = "FAKE_DROP %d" % new if period is None else "FAKE_DROP %d %d" % (new, period)
+	bench.nodes[1].l1_ctrl.sendto(("CMD %s\0" % text).encode(), bench.nodes[1].ctrl_port)
+	info = sc.run(lambda: bench.nodes[1].trx.ctrl_if.handle_rx(), lambda: bench.tick(T), start, switches, timeout = 60.0)
+	if info["hung"]:
+		return "deadlock", info
+	for i, e in enumerate(info["errors"]):
+		if e is not None:
+			return "%s thread raised %s: %s" % (("socket", "clock")[i], type(e).__name__, e), info
+	rsp = [trxc_status(d) for d, _ in bench.nodes[1].l1_ctrl.take_all()]
+	if rsp != [0]:
+		return "the racing FAKE_DROP was answered %r (expected one reply with status 0)" % rsp, info
+	racing = outcome(bench.nodes[1].rx_data())
+	if racing not in ("dropped", "delivered"):
+		return racing, info
+	later = 0
+	K = 9
+	p = period or 1
+	for k in range(1, K + 1):
+		fn = T + k * p          # every later burst passes the frame-number filter
+		if bench.nodes[0].data_raw(trxd.encode(burst(fn))) is None:
+			return "valid burst not accepted", info
+		bench.tick(fn)
+		o = outcome(bench.nodes[1].rx_data())
+		if o not in ("dropped", "delivered"):
+			return o, info
+		later += o == "dropped"
+	passes_new = T % p == 0
+	serial = {
+		# burst first (old budget, period 1), then the command
+		("dropped" if old > 0 else "delivered", min(new, K)),
+		# command first, then the burst under the new budget and period
+		("dropped", min(new - 1, K)) if (new > 0 and passes_new) else ("delivered", min(new, K)),
+	}
+	if (racing, later) not in serial:
+		return ("burst racing the command was %s and %d of the following %d bursts were dropped; the two possible orders give %s"
+			% (racing, later, K, " or ".join("%s/%d" % x for x in sorted(serial)))), info
+	return None, info
+
+
+def trxc_status(d):
+	from vf.ref import trxc
+	r = trxc.parse_response(d)
+	return None if r is None else r[1]
+
+
+def racing_commands(ctx, r):
+	sc = make_sched(ctx)
+	sc.install()
+	distinct = set()
+	try:
+		cfgs = [(old, new, period, vers) for old in (1, 3) for new in (0, 5) for period in (None, 1, 4)
+			for vers in ((1, 1), (0, 0), (0, 1))]
+		r.shuffle(cfgs)
+		if ctx.tier == "quick":
+			# every (pending, new) pair with two of the nine (period, versions) combinations
+			pick = []
+			for pair in ((1, 0), (1, 5), (3, 0), (3, 5)):
+				pick += [c for c in cfgs if (c[0], c[1]) == pair][:2]
+			cfgs = pick
+		for cfg in cfgs:
+			err, info = race_case(ctx, sc, cfg, 0, [])
+			if err:
+				ctx.violation("racing-command", {"config": cfg, "switches": []}, what = err)
+				return
+			n = info["points"]
+			ctx.count("race_decision_points", n)
+			if n < 5:
+				ctx.inconclusive_because("scheduler saw only %d decision points" % n)
+				return
+			plans = [(st, [p1]) for st in (0, 1) for p1 in range(1, n + 2)]
+			for _ in range(ctx.scale(40, 600)):
+				plans.append((r.randrange(2), sorted(r.sample(range(1, n + 3), r.choice((2, 2, 3, 4))))))
+			for (st, sw) in plans:
+				err, info = race_case(ctx, sc, cfg, st, sw)
+				if err == "deadlock":
+					err, info = race_case(ctx, sc, cfg, st, sw)
+				ctx.count("race_schedules_run")
+				key = (cfg, st, tuple(info["trace"]) if info else None)
+				distinct.add(key)
+				ctx.seen(hash(key))
+				if err:
+					ctx.violation("racing-command", {"config": {"pending": cfg[0], "new": cfg[1], "period": cfg[2], "versions": cfg[3]},
+						"start_thread": ("socket", "clock")[st], "switches": sw, "executed_switches": info["trace"] if info else None},
+						what = "FAKE_DROP served while a burst is being delivered: " + err)
+					return
+				if ctx.time_left() < 0:
+					return
+	finally:
+		sc.uninstall()
+		ctx.count("race_distinct_schedules", len(distinct))
+
+
 def run(ctx):
 	ctx.rule = ("streams of 50-400 bursts (consecutive, jittering and arbitrary frame numbers) through real FakeTRX pairs/triples in all "
 		"version combinations with FAKE_DROP n [period] (n 0..50, period 1..60), rejected FAKE_DROP forms, RFMUTE and SETFORMAT between "
-		"bursts; each (burst, recipient) outcome compared with the counter model; distinct = distinct (stream, burst, recipient); "
-		"all non-trivial")
+		"bursts; each (burst, recipient) outcome compared with the counter model; a FAKE_DROP served by the socket thread while the "
+		"clock thread delivers a burst, under a baton scheduler at line granularity (every single preemption point, random multi-switch "
+		"schedules): the outcome must be that of one of the two orders; distinct = distinct (stream, burst, recipient) and executed "
+		"switch traces; all non-trivial")
 	ctx.assume("where RF mute and a pending drop budget overlap, both budget outcomes are accepted (the statement is silent)")
 	r = ctx.rng("c18")
 	for i in range(ctx.scale(400, 60000)):
@@ -131,6 +278,8 @@ def run(ctx):
 		if ctx.too_many() or ctx.time_left() < 0:
 			break
 	ctx.current_case = None
+	racing_commands(ctx, r)
+	ctx.require("race_schedules_run", 200)
 	ctx.require("outcomes_checked", 5000)
 	ctx.require("expected:nope:drop", 200)
 	ctx.require("expected:none:drop", 200)
